@@ -153,8 +153,9 @@ PROPS['C10'] = {
 PROPS['C11'] = {
     'group': 'plss', 'level': 'proof', 'build_timeout': 2400,
     'explanation': 'Proved for every text, default, mode and tract setting (C11_forced, C11_forced_plssdesc): a forced copy_all layout yields exactly one tract whose description is the whole preprocessed text; '
+                   'the same holds for the DEDUCED fallback (C11_deduced): whenever no Twp/Rge or no section word can be found in the preprocessed text, the layout is copy_all and there is exactly one whole-text tract; '
                    'the three channels reach the parser (effective layout = keyword else attribute); every chunk yields at least one tract component, the stand-in stages the whole chunk exactly once. '
-                   'Refuted sub-claim (known finding): the chunk-level fallback tract is cleaned at its edges. Fallback conditions and the error flag are decided on each run by the oracle. ' + _PLSS_TIE,
+                   'Refuted sub-claim (known finding): the chunk-level fallback tract is cleaned at its edges. The error flag of a fallback and "never two whole-text tracts" are decided on each run by the oracle. ' + _PLSS_TIE,
 }
 PROPS['C20'] = {
     'group': 'plss', 'level': 'proof', 'build_timeout': 2400,
